@@ -96,6 +96,11 @@ def nonincreasing_columns(maxlen):
     for n in range(1, maxlen + 1):
         for combo in itertools.combinations_with_replacement(range(len(vals)), n):
             yield [vals[i] for i in combo]
+    # neighbouring doubles and values that differ only in the last printed digits: groups are runs of EXACTLY equal probability
+    near = [0.30000000000000004, 0.3, 0.29999999999999993, 0.1, 0.09999999999999999, 1e-300, 5e-324, 0.0]
+    for n in range(1, min(maxlen, 4) + 1):
+        for combo in itertools.combinations_with_replacement(range(len(near)), n):
+            yield [near[i] for i in combo]
 
 
 def shards(tier):
